@@ -17,6 +17,8 @@
 #include <sys/socket.h>
 #include <sys/un.h>
 #include <sys/ioctl.h>
+#include <netinet/in.h>
+#include <arpa/inet.h>
 #include "threadpool/threadpool.c"
 #include "threadpool/threadpool_msg_sys.c"
 #include "threadpool/threadpool_task.c"
@@ -113,7 +115,8 @@ static void perturb(void) {
 #define MAXTK 16
 #define MAXCAP 32
 #define MAXPOL 8
-enum { K_STREAM = 0, K_FILE = 1, K_PIPE = 2, K_DGRAM = 3 };
+enum { K_STREAM = 0, K_FILE = 1, K_PIPE = 2, K_DGRAM = 3, K_LISTEN = 4, K_CONNECT = 5 };
+#define MAXCONN 16
 enum { CL_PART = 0, CL_FULL = 1, CL_EOF = 2, CL_TMO = 3, CL_ERR = 4, CL_N = 5 };
 typedef struct tk_s {
 	int used_slot, k, kind;
@@ -128,6 +131,8 @@ typedef struct tk_s {
 	volatile int cbs, tmo_cbs, eof_cbs, err_cbs;
 	volatile int destroyed;
 	int owner, handler;
+	int port, xfd, conns[MAXCONN], nconn;   /* listener port; filler connection; client ends of accepted connections */
+	volatile int creating;                  /* inside tp_task_*_create(): the task pointer is not known to the rig yet */
 } tk_t;
 static tk_t g_tk[MAXTK];
 static volatile long g_activity;   /* bumped by every task-related step of a pool thread */
@@ -139,6 +144,18 @@ static int tk_obj(const void *p, int *o) { /* which task object is this tp_udata
 		if (!g_tk[i].used_slot || g_tk[i].task == NULL || g_tk[i].destroyed) continue;
 		if (p == (const void *)&g_tk[i].task->tp_data) { *o = 0; return i; }
 		if (p == (const void *)&g_tk[i].task->tp_timer) { *o = 1; return i; }
+	}
+	return -1;
+}
+static int tk_obj_creating(const void *p, int *o) {
+	const tp_udata_t *u = p;
+	for (int i = 0; i < MAXTK; i++) {
+		tk_t *tk = &g_tk[i];
+		if (!tk->used_slot || !tk->creating || tk->task != NULL) continue;
+		if (u->cb_func == NULL) continue;
+		if (u->ident == (uintptr_t)tk->fd) { tk->task = (tp_task_p)(uintptr_t)p; *o = 0; return i; }
+		tp_task_p cand = (tp_task_p)u->ident;
+		if ((const void *)&cand->tp_timer == p && cand->tp_data.ident == (uintptr_t)tk->fd) { tk->task = cand; *o = 1; return i; }
 	}
 	return -1;
 }
@@ -157,6 +174,7 @@ void liblcb_verif_point(const char *label, const void *a, const void *b, uintptr
 		    (unsigned)(val & 0xffff), (int)((val >> 24) & 1), (int)((val >> 25) & 1));
 	} else if (0 == strcmp(label, "ev.post")) {
 		int o, k = tk_obj(b, &o);
+		if (k < 0 && ((const tp_udata_t *)b)->cb_func != NULL && ((const tp_udata_t *)b)->cb_func != tpt_msg_recv_and_process) k = tk_obj_creating(b, &o);
 		vh_post_k = k; vh_post_o = o;
 		if (k >= 0) LOGEV("\"e\":\"ev.post\",\"k\":%d,\"o\":\"%s\",\"op\":%u,\"ev\":%u,\"fl\":%u", k, oname(o),
 		    (unsigned)(val & 0xff), (unsigned)((val >> 8) & 0xff), (unsigned)((val >> 16) & 0xffff));
@@ -266,6 +284,26 @@ ssize_t __wrap_recvfrom(int fd, void *buf, size_t len, int flags, struct sockadd
 	return io_call(tk, 4, fd, buf, len, flags, 0, sa, sl);
 }
 
+int __real_accept4(int, struct sockaddr *, socklen_t *, int);
+int __wrap_accept4(int fd, struct sockaddr *sa, socklen_t *sl, int flags) {
+	tk_t *tk = tk_by_fd(fd);
+	if (!tk) return __real_accept4(fd, sa, sl, flags);
+	perturb();
+	__sync_fetch_and_add(&g_activity, 1);
+	pthread_mutex_lock(&tk->mu);
+	int rc, err = 0, inj = 0;
+	if (tk->inj_k > 0 && --tk->inj_k == 0) { rc = -1; err = tk->inj_err; inj = 1; }
+	else { rc = __real_accept4(fd, sa, sl, flags); err = errno; }
+	unsigned port = (rc >= 0 && sa != NULL && sa->sa_family == AF_INET) ? ntohs(((struct sockaddr_in *)sa)->sin_port) : 0;
+	char ids[32];
+	if (rc >= 0) snprintf(ids, sizeof(ids), "[%u]", port); else strcpy(ids, "[]");
+	LOGEV("\"e\":\"sys.io\",\"k\":%d,\"fn\":\"accept4\",\"poff\":0,\"len\":0,\"cap\":0,\"fo\":0,\"dontwait\":%d,\"rc\":%d,\"err\":%d,\"inj\":%d,\"ids\":%s",
+	    tk->k, (flags & SOCK_NONBLOCK) ? 1 : 0, (rc >= 0) ? 1 : rc, (rc < 0) ? err : 0, inj, ids);
+	pthread_mutex_unlock(&tk->mu);
+	errno = err;
+	return rc;
+}
+
 /* ------------------------------------------------------------------ callbacks of the tasks */
 static void api_stop(tk_t *tk) {
 	LOGEV("\"e\":\"call.stop\",\"k\":%d", tk->k); tp_task_stop(tk->task); LOGEV("\"e\":\"ret.stop\",\"k\":%d", tk->k);
@@ -359,6 +397,48 @@ static int notify_cb(tp_task_p tptask, int error, uint32_t eof, size_t d2t, void
 	return ret;
 }
 
+static int cb_finish(tk_t *tk, int error, uint32_t eof, int cls) {
+	perturb();
+	int ret;
+	if (tk->cbs >= 40 && tk->task != NULL) { api_stop(tk); ret = TP_TASK_CB_NONE; }
+	else ret = run_policy(tk, cls);
+	LOGEV("\"e\":\"taskcb.end\",\"k\":%d,\"ret\":%d", tk->k, ret);
+	if (error == ETIMEDOUT) tk->tmo_cbs++;
+	else if (error != 0) tk->err_cbs++;
+	if (eof != 0) tk->eof_cbs++;
+	tk->cbs++;
+	return ret;
+}
+#define CB_LOG(tk, tptask, error, nn, extra_fmt, ...) do { tpt_p cur_ = tpt_get_current(); \
+	LOGEV("\"e\":\"taskcb.begin\",\"k\":%d,\"same\":%d,\"err\":%d,\"eof\":0,\"nb\":%ld,\"size\":%zu,\"used\":%zu,\"off\":%zu,\"tr\":%zu,\"foff\":%ld,\"cur\":%ld,\"mem\":%s" extra_fmt, \
+	    (tk)->k, ((tptask) == (tk)->task) ? 1 : 0, (error), (long)(nn), (tk)->buf.size, (tk)->buf.used, (tk)->buf.offset, (tk)->buf.transfer_size, \
+	    (long)tp_task_offset_get(tptask), cur_ ? (long)cur_->thread_num : -1L, arr(1, (tk)->buf.data, (tk)->buf.size), __VA_ARGS__); } while (0)
+static int pkt_cb(tp_task_p tptask, int error, struct sockaddr_storage *addr, io_buf_p buf, size_t n, void *udata) {
+	tk_t *tk = udata;
+	CB_LOG(tk, tptask, error, n, ",\"addr\":%d,\"bufok\":%d", addr != NULL, buf == &tk->buf);
+	return cb_finish(tk, error, 0, (error == ETIMEDOUT) ? CL_TMO : (error != 0) ? CL_ERR : CL_PART);
+}
+static int acc_cb(tp_task_p tptask, int error, uintptr_t skt_new, struct sockaddr_storage *addr, void *udata) {
+	tk_t *tk = udata;
+	int ok = ((uintptr_t)-1 != skt_new);
+	unsigned port = (ok && addr != NULL && addr->ss_family == AF_INET) ? ntohs(((struct sockaddr_in *)addr)->sin_port) : 0;
+	int nb = ok ? ((fcntl((int)skt_new, F_GETFL) & O_NONBLOCK) != 0) : 0;
+	CB_LOG(tk, tptask, error, ok ? 1 : 0, ",\"port\":%u,\"nonblock\":%d", port, nb);
+	if (ok) close((int)skt_new);
+	return cb_finish(tk, error, 0, (error == ETIMEDOUT) ? CL_TMO : (error != 0) ? CL_ERR : CL_PART);
+}
+static int conn_cb(tp_task_p tptask, int error, void *udata) {
+	tk_t *tk = udata;
+	CB_LOG(tk, tptask, error, 0, ",\"conn\":%d", 1);
+	return cb_finish(tk, error, 0, (error == ETIMEDOUT) ? CL_TMO : (error != 0) ? CL_ERR : CL_FULL);
+}
+static void loopback(struct sockaddr_storage *ss, int port) {
+	memset(ss, 0, sizeof(*ss));
+	struct sockaddr_in *sin = (struct sockaddr_in *)ss;
+	sin->sin_family = AF_INET; sin->sin_addr.s_addr = htonl(INADDR_LOOPBACK); sin->sin_port = htons((uint16_t)port);
+}
+static int bound_port(int fd) { struct sockaddr_in sin; socklen_t sl = sizeof(sin); getsockname(fd, (struct sockaddr *)&sin, &sl); return ntohs(sin.sin_port); }
+
 /* ------------------------------------------------------------------ scenario machinery */
 #define MAXGATE 8
 static sem_t g_gate[MAXGATE];
@@ -399,7 +479,7 @@ static int tk_ops(const char *op, const char *args) {
 		size_t size = 0, off = 0, tr = 0, used = 0; int kind = 0;
 		sscanf(args, "%d %d %zu %zu %zu %zu", &k, &kind, &size, &off, &tr, &used);
 		tk_t *tk = &g_tk[k]; memset(tk, 0, sizeof(*tk));
-		tk->k = k; tk->kind = kind; tk->fd = tk->pfd = -1; tk->used_slot = 1; pthread_mutex_init(&tk->mu, NULL);
+		tk->k = k; tk->kind = kind; tk->fd = tk->pfd = tk->xfd = -1; tk->used_slot = 1; pthread_mutex_init(&tk->mu, NULL);
 		int fds[2];
 		if (kind == K_STREAM || kind == K_DGRAM) {
 			if (socketpair(AF_UNIX, (kind == K_STREAM) ? SOCK_STREAM : SOCK_DGRAM, 0, fds) != 0) abort();
@@ -409,6 +489,23 @@ static int tk_ops(const char *op, const char *args) {
 			if (pipe(fds) != 0) abort();
 			fcntl(fds[0], F_SETFL, O_NONBLOCK); fcntl(fds[1], F_SETFL, O_NONBLOCK);
 			tk->fd = fds[0]; tk->pfd = fds[1];
+		} else if (kind == K_LISTEN) { /* listening TCP socket made by the library's own helpers (src/net/socket.c) */
+			struct sockaddr_storage ss; uintptr_t skt = (uintptr_t)-1;
+			loopback(&ss, 0);
+			if (skt_bind(&ss, SOCK_STREAM, 0, SO_F_NONBLOCK | SO_F_REUSEADDR, &skt) != 0 || skt_listen(skt, 16) != 0) abort();
+			tk->fd = (int)skt; tk->port = bound_port(tk->fd);
+		} else if (kind == K_CONNECT) { /* `used` selects the target: 0 listener that takes the connection, 1 closed port, 2 listener whose queue is full */
+			struct sockaddr_storage ss; uintptr_t skt = (uintptr_t)-1;
+			int ls = socket(AF_INET, SOCK_STREAM, 0); loopback(&ss, 0);
+			if (ls < 0 || bind(ls, (struct sockaddr *)&ss, sizeof(struct sockaddr_in)) != 0 || listen(ls, (used == 2) ? 0 : 8) != 0) abort();
+			tk->port = bound_port(ls); tk->pfd = ls; tk->xfd = -1;
+			loopback(&ss, tk->port);
+			if (used == 1) { close(ls); tk->pfd = -1; }
+			if (used == 2) { tk->xfd = socket(AF_INET, SOCK_STREAM, 0); if (connect(tk->xfd, (struct sockaddr *)&ss, sizeof(struct sockaddr_in)) != 0) abort(); }
+			int e = skt_connect(&ss, SOCK_STREAM, 0, SO_F_NONBLOCK, &skt);
+			tk->fd = (0 == e) ? (int)skt : -1;
+			tk->port = (int)used * 1000 + e;   /* reported after tknew */
+			used = 0;
 		} else {
 			tk->fd = open(g_tmpdir, O_TMPFILE | O_RDWR, 0600);
 			if (tk->fd < 0) abort();
@@ -417,6 +514,7 @@ static int tk_ops(const char *op, const char *args) {
 		tk->buf.size = size; tk->buf.used = used; tk->buf.offset = off; tk->buf.transfer_size = tr; tk->buf.flags = 0;
 		tk->off0 = off; tk->tr0 = tr; tk->used0 = used;
 		LOGEV("\"e\":\"tknew\",\"k\":%d,\"kind\":%d,\"size\":%zu,\"off\":%zu,\"tr\":%zu,\"used\":%zu", k, kind, size, off, tr, used);
+		if (kind == K_CONNECT) LOGEV("\"e\":\"connect\",\"k\":%d,\"mode\":%d,\"rc\":%d", k, tk->port / 1000, tk->port % 1000);
 		return 1;
 	}
 	if (!strcmp(op, "tkfill")) { /* tkfill k pos count firstid : put payload ids into the buffer (write tasks) */
@@ -464,6 +562,43 @@ static int tk_ops(const char *op, const char *args) {
 		LOGEV("\"e\":\"tkcreate\",\"k\":%d,\"thr\":%d,\"h\":%d,\"tflags\":%d,\"rc\":%d", k, a, b, c, rc);
 		return 1;
 	}
+	if (!strcmp(op, "varcreate")) { /* varcreate k thr timeout_ms : tp_task_pkt_rcvr_create / _accept_create / _connect_create by kind */
+		unsigned long tmo = 0;
+		sscanf(args, "%d %d %lu", &k, &a, &tmo);
+		tk_t *tk = &g_tk[k]; tk->owner = a;
+		int h = (tk->kind == K_DGRAM) ? 3 : (tk->kind == K_LISTEN) ? 4 : 5;
+		tk->handler = h;
+		LOGEV("\"e\":\"tkcreate\",\"k\":%d,\"thr\":%d,\"h\":%d,\"tflags\":0,\"rc\":0", k, a, h);
+		LOGEV("\"e\":\"call.start\",\"k\":%d,\"direct\":0,\"ev\":%d,\"efl\":%d,\"tmo\":%lu,\"foff\":0,\"tflags\":%d", k, (h == 5) ? 1 : 0, (h == 5) ? 1 : 0, tmo, (h == 3) ? 2 : 0);
+		int rc; tp_task_p tret = NULL;
+		tk->creating = 1;
+		if (h == 3) rc = tp_task_pkt_rcvr_create(thr(a), (uintptr_t)tk->fd, 0, (uint64_t)tmo, &tk->buf, pkt_cb, tk, &tret);
+		else if (h == 4) rc = tp_task_accept_create(thr(a), (uintptr_t)tk->fd, 0, (uint64_t)tmo, acc_cb, tk, &tret);
+		else rc = tp_task_connect_create(thr(a), (uintptr_t)tk->fd, 0, (uint64_t)tmo, conn_cb, tk, &tret);
+		tk->creating = 0;
+		if (tk->task != NULL && tret != NULL && tk->task != tret) LOGEV("\"e\":\"BadOp\",\"op\":\"task-pointer-recovery\"");
+		tk->task = tret;
+		LOGEV("\"e\":\"ret.start\",\"k\":%d,\"rc\":%d", k, rc);
+		return 1;
+	}
+	if (!strcmp(op, "peerconn")) { /* peerconn k count : clients connect to the listener; their ports identify the connections */
+		sscanf(args, "%d %d", &k, &a);
+		tk_t *tk = &g_tk[k]; uint8_t dummy = 0; char ids[256]; size_t l = 0;
+		struct sockaddr_storage ss; loopback(&ss, tk->port);
+		perturb();
+		pthread_mutex_lock(&tk->mu);
+		ids[l++] = '['; (void)dummy;
+		for (int i = 0; i < a && tk->nconn < MAXCONN; i++) {
+			int c = socket(AF_INET, SOCK_STREAM, 0);
+			if (c < 0 || connect(c, (struct sockaddr *)&ss, sizeof(struct sockaddr_in)) != 0) abort();
+			tk->conns[tk->nconn++] = c;
+			l += (size_t)snprintf(ids + l, 16, "%s%d", i ? "," : "", bound_port(c));
+		}
+		ids[l++] = ']'; ids[l] = 0;
+		LOGEV("\"e\":\"peer.conn\",\"k\":%d,\"ids\":%s", k, ids);
+		pthread_mutex_unlock(&tk->mu);
+		return 1;
+	}
 	if (!strcmp(op, "tkstart")) { /* tkstart k direct ev evflags timeout_ms foffset */
 		long fo = 0; unsigned long tmo = 0;
 		sscanf(args, "%d %d %d %d %lu %ld", &k, &a, &b, &c, &tmo, &fo);
@@ -475,11 +610,13 @@ static int tk_ops(const char *op, const char *args) {
 		LOGEV("\"e\":\"ret.start\",\"k\":%d,\"rc\":%d", k, rc);
 		return 1;
 	}
-	if (!strcmp(op, "tkstop")) { sscanf(args, "%d", &k); api_stop(&g_tk[k]); return 1; }
-	if (!strcmp(op, "tkenable")) { sscanf(args, "%d %d", &k, &a); api_enable(&g_tk[k], a); return 1; }
+	/* (a task that destroyed itself in its callback is gone: the owner has nothing to operate on) */
+	if (!strcmp(op, "tkstop")) { sscanf(args, "%d", &k); if (g_tk[k].task) api_stop(&g_tk[k]); return 1; }
+	if (!strcmp(op, "tkenable")) { sscanf(args, "%d %d", &k, &a); if (g_tk[k].task) api_enable(&g_tk[k], a); return 1; }
 	if (!strcmp(op, "tkdestroy")) { sscanf(args, "%d", &k); if (g_tk[k].task) api_destroy(&g_tk[k]); return 1; }
 	if (!strcmp(op, "tkrestart")) {
 		sscanf(args, "%d", &k);
+		if (!g_tk[k].task) return 1;
 		LOGEV("\"e\":\"call.restart\",\"k\":%d", k);
 		int rc = tp_task_restart(g_tk[k].task);
 		LOGEV("\"e\":\"ret.restart\",\"k\":%d,\"rc\":%d", k, rc);
@@ -540,7 +677,9 @@ static int tk_ops(const char *op, const char *args) {
 		if (tk->task) api_destroy(tk);
 		if (tk->fd >= 0) close(tk->fd);
 		if (tk->pfd >= 0) close(tk->pfd);
-		tk->fd = tk->pfd = -1; free(tk->buf.data); tk->buf.data = NULL; tk->used_slot = 0;
+		if (tk->xfd >= 0) close(tk->xfd);
+		for (int i = 0; i < tk->nconn; i++) close(tk->conns[i]);
+		tk->nconn = 0; tk->fd = tk->pfd = tk->xfd = -1; free(tk->buf.data); tk->buf.data = NULL; tk->used_slot = 0;
 		return 1;
 	}
 	(void)d; (void)e;
